@@ -42,6 +42,16 @@ Proof.
 Qed.
 Print Assumptions C13_no_write_closure_after_wait.
 
+(* "no later than the last frame written before Wait returns": with auto refresh and no render error, when the container
+   goroutine returns every accepted line has been written and the writer's buffer holds no text (serve renders once more
+   after done; nothing is accepted after done) *)
+Theorem C13_all_text_written_when_wait_returns : forall p a d evs s s',
+  run (init_cst p a d) evs = Some s -> step s CT_EXIT = Some s' ->
+  auto_mode s = true -> errored s = false -> delayed s = false ->
+  texts (concat (rev (outframes s'))) = wlog s' /\ texts (cwbuf s') = [].
+Proof. exact all_text_written_at_exit. Qed.
+Print Assumptions C13_all_text_written_when_wait_returns.
+
 Example C13_nonvacuous :
   exists s, run (init_cst false true false)
     [CT_OP; CT_ADD 0 0 0 5 None None false false true 0 false; HM_PUSH 0 true 0 false 0;
